@@ -622,6 +622,25 @@ where
             {
                 let stream_state = Arc::new(StreamState::default());
 
+                // A new connection from an address which is still in the table means that the old connection ended
+                //   without this being noticed (the address could not have been reused otherwise), so process it as
+                //   a disconnection before the new stream takes its place.
+                if let Some(old_stream) = self.streams.remove(&addr) {
+                    if let Some(handler) = &disconnect_handler {
+                        let async_stream = AsyncStream::disconnected(
+                            addr,
+                            self.message_sender.clone(),
+                            old_stream.state.clone(),
+                        );
+
+                        let cloned_state = self.state.clone();
+                        let cloned_handler = handler.clone();
+
+                        self.thread_pool
+                            .execute(move || (cloned_handler)(async_stream, cloned_state));
+                    }
+                }
+
                 #[cfg(humphrey_verif)]
                 crate::verif_trace::push(format!(
                     "adm,{},{}",
